@@ -17,6 +17,7 @@ class Built:
         self.event_maps = []
         self.port = None      # (attribute name, role) role: "target" | "initiator"
         self.submodules = []
+        self.extend = None    # optional: a legal further configuration call (returns a summary)
 
     def add_component_signature(self):
         from amaranth.lib.wiring import In
@@ -48,13 +49,17 @@ def _field_tree(rng, depth, racc):
     k = rng.below(100)
     if depth >= 2 or k < 55:
         act = rng.choice(ACT[racc] + ["ResRAW0", "ResR0W0"])
-        kind = rng.below(10)
+        kind = rng.below(12)
         if kind < 6:
             sh = ["u", rng.range(0, 9)]
         elif kind < 8:
             sh = ["s", rng.range(1, 9)]
-        else:
+        elif kind < 10:
             sh = ["e"]
+        elif kind == 10:
+            sh = ["arr", rng.range(1, 3), rng.range(1, 3)]
+        else:
+            sh = ["struct", [rng.range(1, 3) for _ in range(rng.range(1, 3))]]
         return {"t": "field", "act": act, "shape": sh}
     if k < 80:
         return {"t": "dict", "items": [[f"f{i}", _field_tree(rng, depth + 1, racc)]
@@ -67,7 +72,12 @@ def _build_fields(node):
     from amaranth_soc.csr import action
     from worlds.fields import make_shape
     if node["t"] == "field":
-        return csr.Field(getattr(action, node["act"]), make_shape(node["shape"]))
+        kw = {}
+        if node["shape"][0] in ("arr", "struct") and node["act"] in ("RW", "RW1C", "RW1S"):
+            from worlds.fields import make_init
+            sh = node["shape"]
+            kw["init"] = make_init(sh, [0] * (sh[2] if sh[0] == "arr" else len(sh[1])))
+        return csr.Field(getattr(action, node["act"]), make_shape(node["shape"]), **kw)
     if node["t"] == "dict":
         return {n: _build_fields(s) for n, s in node["items"]}
     return [_build_fields(s) for s in node["items"]]
@@ -103,13 +113,21 @@ def gen_action(rng):
     from worlds.fields import ACTIONS
     kind = rng.below(10)
     sh = ["u", rng.range(0, 9)] if kind < 5 else (["s", rng.range(1, 9)] if kind < 8 else ["e"])
+    if rng.chance(0.15):
+        sh = rng.choice([["arr", rng.range(1, 3), rng.range(1, 3)],
+                         ["struct", [rng.range(1, 3) for _ in range(rng.range(1, 3))]]])
     return {"act": rng.choice(ACTIONS), "shape": sh}
 
 
 def build_action(cfg):
     from amaranth_soc.csr import action
     from worlds.fields import make_shape
-    a = hw.construct(getattr(action, cfg["act"]), make_shape(cfg["shape"]))
+    kw = {}
+    sh = cfg["shape"]
+    if sh[0] in ("arr", "struct") and cfg["act"] in ("RW", "RW1C", "RW1S"):
+        from worlds.fields import make_init
+        kw["init"] = make_init(sh, [0] * (sh[2] if sh[0] == "arr" else len(sh[1])))
+    a = hw.construct(getattr(action, cfg["act"]), make_shape(sh), **kw)
     b = Built(a, "csr.action." + cfg["act"])
     b.add_component_signature()
     return b
@@ -164,6 +182,13 @@ def build_csrdec(cfg):
         b.add_interface(sb, f"s{i}", dut_is_target=False)
     b.maps.append(dut.bus.memory_map)
     b.port = ("bus", "target")
+
+    def extend():
+        sb = csr.Interface(addr_width=1, data_width=cfg["dw"], path=("late",))
+        sb.memory_map = MemoryMap(addr_width=1, data_width=cfg["dw"])
+        sb.memory_map.add_resource(hw.MockReg(1, "r"), name=("late_res",), size=1)
+        return dut.add(sb, name="late")
+    b.extend = extend
     return b
 
 
@@ -299,6 +324,14 @@ def build_wbdec(cfg):
         b.add_interface(sb, f"s{i}", dut_is_target=False)
     b.maps.append(dut.bus.memory_map)
     b.port = ("bus", "target")
+
+    def extend():
+        sb = wishbone.Interface(addr_width=0, data_width=cfg["dw"], granularity=cfg["g"],
+                                path=("late",))
+        sb.memory_map = MemoryMap(addr_width=max(1, log2(cfg["dw"] // cfg["g"])),
+                                  data_width=cfg["g"])
+        return dut.add(sb, name="late")
+    b.extend = extend
     return b
 
 
@@ -319,6 +352,13 @@ def build_arbiter(cfg):
         hw.construct(dut.add, ib)
         b.add_interface(ib, f"i{i}", dut_is_target=True)
     b.port = ("bus", "initiator")
+
+    def extend():
+        ib = wishbone.Interface(addr_width=cfg["aw"], data_width=cfg["dw"], granularity=cfg["dw"],
+                                features={"err", "rty"}, path=("late",))
+        dut.add(ib)
+        return "added"
+    b.extend = extend
     return b
 
 
